@@ -114,6 +114,9 @@ func (y *c01Sys) Root() *c01State {
 		opt.RegistrationFee = sdk.NewCoins(world.Coin("uxx", 1))
 	}
 	w := world.NewL1(opt)
+	// governance has switched plain transfers of uyy off (x/bank's per-denom send switch): bridge deposits
+	// and payouts are not plain transfers and must still move exactly what they announce
+	w.BK.SetSendEnabled(w.Ctx, "uyy", false)
 	res := w.Deliver(w.Ctx, ophosttypes.NewMsgCreateBridge(world.Addr("creator").String(), world.BridgeConfig("proposer", "challenger", c01Period)))
 	s := &c01State{ctx: w.Ctx, w: w, sys: y, bal: map[string]int64{}}
 	if !res.OK() {
